@@ -54,9 +54,9 @@ CHECKS = {
          "Trusted: exact i128 rational path products; union-find tree test.",
          "DESIGN.md §4 C09"),
  "C10": ("model_checking",
-         "explicit-state BFS (stateright) to a fixpoint over the real FXRates object under update / refused-update / set_ad_order actions, plus bounded-exhaustive closed-form sensitivities",
-         "The state graph of the real object (state = its complete content) is explored to the fixpoint for every tree market on 2-3 currencies and a chain/star on 4, so histories of every length over the action menu are covered; every transition is an execution of the real mutator and every state is compared with a market built directly from the latest quotes. Sensitivities: all trees <= 4 (5) currencies x quote forms x orders against closed forms.",
-         "Trusted: 2-3 value table per quote; closed-form derivatives of a product of powers; state key = full content (no abstraction).",
+         "explicit-state BFS (stateright) to a fixpoint over the real FXRates object under update / refused-update / set_ad_order / settlement-roll actions, plus stateless depth-bounded exhaustive enumeration of every action sequence (no state matching) on the two smallest markets, plus bounded-exhaustive closed-form sensitivities",
+         "The state graph of the real object (state = its complete content) is explored to the fixpoint for every tree market on 2-3 currencies and a chain/star on 4, so histories of every length over the action menu are covered; every transition is an execution of the real mutator and every state is compared with a market built directly from the latest quotes (the settlement date is part of the state). Because state matching can hide state the key does not see, every history of length 5 (6) over 11 / 8 actions on a one-quote / two-quote market is also executed without matching. Sensitivities: all trees <= 4 (5) currencies x quote forms x orders against closed forms.",
+         "Trusted: 2-3 value table per quote; closed-form derivatives of a product of powers; state key = full content of the pinned object (no abstraction); content added by a later change is invisible to the key and is covered only to the depth of the unmerged pass.",
          "DESIGN.md §4 C10"),
 
  "C04": ("exploration",
